@@ -153,6 +153,28 @@ pub fn sites(tier: Tier) -> Vec<Site> {
                 SLOTS[slot()].store(u64::MAX, AO::Relaxed);
             }));
     }
+    // every number a version can carry: all non-negative finite f32 (thorough: all 2^31 bit patterns;
+    // quick: every 2048th): print, parse, same bits
+    {
+        let step: u64 = if tier == Tier::Thorough { 1 } else { 2048 };
+        let n = (1u64 << 31) / step;
+        sites.push(Site::new("all-numbers", n,
+            "every non-negative finite f32 as the number of a version (thorough: all 2^31 bit patterns, quick: every 2048th), with letter A and without a revision: the printed form parses back to the same bits",
+            move |i, acc| {
+                let bits = (i * step) as u32;
+                let x = f32::from_bits(bits);
+                if !x.is_finite() { return; }
+                acc.eval();
+                let v = GameVersion { major: x, minor: 'A', patch: None };
+                let printed = v.to_string();
+                match guard(|| GameVersion::from_str(&printed)) {
+                    Ok(Ok(w)) if w.major.to_bits() == bits && w.minor == 'A' && w.patch.unwrap_or(0) == 0 => { acc.class("number-reparsed"); acc.nontrivial(); },
+                    other => acc.violate(i, "C16|print|number-not-reparseable".into(),
+                        format!("the number with bits {bits:#010x} prints as {printed:?}, which parses to {}", match other { Ok(Ok(w)) => format!("{:#010x} ({w:?})", w.major.to_bits()), Ok(Err(e)) => format!("error {e}"), Err(p) => format!("panic {p}") }),
+                        json!({"site": "all-numbers", "index": i, "bits": bits})),
+                }
+            }));
+    }
     // 8-byte wire forms through the VER packet
     {
         let n: u64 = 10 * 10 * 11 * 26 * 2 * 111;
